@@ -2,3 +2,4 @@
 pub mod isa;
 pub mod stmt;
 pub mod asm;
+pub mod cpu;
